@@ -2,7 +2,8 @@
 # tools/try_mutant.sh <patch.diff> <Cxx> [quick|thorough] ...  -- apply a patch to /repo, run checks, always revert.
 P=$1; shift
 if ! git -C /repo diff --quiet; then echo "/repo working tree is dirty; refusing"; exit 3; fi
-if ! git -C /repo apply "$P"; then echo "patch does not apply"; exit 3; fi
+if ! git -C /repo apply "$P" 2>/dev/null && ! git -C /repo apply -C1 "$P" 2>/dev/null && ! (cd /repo && patch -p1 -s -F3 < "$P"); then echo "patch does not apply"; git -C /repo checkout -- .; exit 3; fi
+find /repo -name "*.orig" -newer "$P" -delete 2>/dev/null
 trap 'git -C /repo checkout -- . ; git -C /repo clean -fdq parser/tests toktrie/tests 2>/dev/null' EXIT
 TIER=quick
 RES=""
